@@ -43,6 +43,8 @@ func c07Gen(c *vfCtx, emit func(c07Case)) {
 			{name, []vfCall{ok("snap", "", "100% done %d %s"), ok("snap", "", "x\n--- \ny\n---\t"), ok("snap", "", c10Big)}},
 			// lines ending in CR LF (whether such a value replays is the documented limitation; Clean must not CHANGE whether it does) and one very long line
 			{name, []vfCall{ok("snap", "", "GET / HTTP/1.1\r\nHost: x\r\n\r\nbody"), ok("snap", "", "v2"), ok("snap", "", c10Long)}},
+			// the empty value, a value that is one empty line, and a blank: matched entries like any other
+			{name, []vfCall{ok("snap", "", ""), ok("snap", "", "\n"), ok("snap", "", " "), ok("ssnap", "", "")}},
 		}
 	}
 	names := []string{"TestA", "TestA/s", "TestAB", "FuzzA/seed#0", "Test1", "TestA/c_01", "TestA/c_1", "TestA/a:b?*"}
